@@ -18,7 +18,7 @@ impl std::io::Seek for ShortReads {
     }
 }
 
-/// Public-API stage: (9 b ((chrom start end) ...) ((chrom s e) ...) zoom_resolution).  One value per block
+/// Public-API stage: (9 b ((chrom start end) ...) ((chrom s e) ...) zoom_resolution).  One value per block; a plain and a caching reader
 /// (items_per_slot = 1), fan-out b, one manual zoom level; every query first asks the zoom index and then
 /// the main index through the SAME reader, which only ever gets short reads.
 fn run_api(c: &S) -> S {
@@ -42,6 +42,12 @@ fn run_api(c: &S) -> S {
         Ok(x) => x,
         Err(code) => return sl![a(1), a(code)],
     };
+    // the same queries, in the same order, through a caching reader as well: what one query left in the node
+    // cache must not change what a later query finds (answer (1 7) when the two readers differ)
+    let mut rc = match bigtools::BigWigRead::open(ShortReads(std::io::Cursor::new(bytes.clone()))) {
+        Ok(r) => r.cached(),
+        Err(_) => return sl![a(1), a(2)],
+    };
     let mut r = match bigtools::BigWigRead::open(ShortReads(std::io::Cursor::new(bytes))) {
         Ok(r) => r,
         Err(_) => return sl![a(1), a(2)],
@@ -53,6 +59,15 @@ fn run_api(c: &S) -> S {
         .map(|q| {
             let (nm, s, e) = (name(q.at(0).u32()), q.at(1).u32(), q.at(2).u32());
             let _ = r.get_zoom_interval(&nm, s, e, zres).map(|it| it.count());
+            let zc = rc.get_zoom_interval(&nm, s, e, zres).map(|it| it.filter_map(|x| x.ok()).map(|z| (z.start, z.end)).collect::<Vec<_>>()).ok();
+            let zp = r.get_zoom_interval(&nm, s, e, zres).map(|it| it.filter_map(|x| x.ok()).map(|z| (z.start, z.end)).collect::<Vec<_>>()).ok();
+            let cached: Option<Vec<(u32, u32)>> =
+                rc.get_interval(&nm, s, e).ok().and_then(|it| it.map(|v| v.ok().map(|v| (v.start, v.end))).collect());
+            let plain: Option<Vec<(u32, u32)>> =
+                r.get_interval(&nm, s, e).ok().and_then(|it| it.map(|v| v.ok().map(|v| (v.start, v.end))).collect());
+            if cached != plain || zc != zp {
+                return sl![a(1), a(7)];
+            }
             match r.get_interval(&nm, s, e) {
                 Err(_) => sl![a(1), a(1)],
                 Ok(it) => {
